@@ -24,7 +24,11 @@ RULE = (
     "duplicates, F in {0, dyadics}, inverse temperature in (0,1], second temperature for the exchange move); the check then "
     "enumerates EVERY unordered genotype of the instance and, for every SNV / every interval / both structural types, the "
     "exact move distribution of every state; evaluations counts (state x move) kernel rows. non-trivial instance = has a "
-    "state with a duplicated haplotype AND a pair of states with non-zero flow in both directions; distinct by decoded instance"
+    "state with a duplicated haplotype AND a pair of states with non-zero flow in both directions; distinct by decoded instance. "
+    "Orchestration histories: the python body of the sampler loop is run with the moves replaced by recorders; every move must "
+    "receive the llk of the genotype it receives, the chain's own temperature and buffer, a partition of the sites, and the "
+    "locus parameters (log number of possible haplotypes = sum log n_alleles, inbreeding, reads, read counts). Wiring: the "
+    "command line options reach the sampler constructor"
 )
 ASSUMPTIONS = [
     "target pi_T(g) ∝ (L_ref(g) P_ref(g))^T with L_ref, P_ref from vf/ref (pure python)",
@@ -429,15 +433,34 @@ def check_orchestration(ctx, case):
     log = []
     o_mut, o_struct, o_swap = mutation.compound_step, structural.compound_step, M.chain_swap_step
 
+    exp_log_unique = float(sum(math.log(n) for n in n_alleles))
+
+    def params(what, kw):
+        # the model parameters every move receives are those of the locus: number of possible haplotypes, inbreeding, data
+        lu = float(kw["log_unique_haplotypes"])
+        if abs(lu - exp_log_unique) > 1e-9 * max(1.0, exp_log_unique):
+            problems.append(Problem("orchestration:log_unique_haplotypes", "%s received log(number of possible haplotypes) = %r, the allele counts %s give %r" % (what, lu, n_alleles, exp_log_unique)))
+        if float(kw["inbreeding"]) != float(case["inbreeding"]):
+            problems.append(Problem("orchestration:inbreeding", "%s received inbreeding %r, the sampler was given %r" % (what, float(kw["inbreeding"]), case["inbreeding"])))
+        if "reads" in kw and (kw["reads"].shape != R_arr.shape or not np.array_equal(kw["reads"], R_arr, equal_nan=True)):
+            problems.append(Problem("orchestration:reads", "%s received another read tensor" % what))
+        if "read_counts" in kw and (kw["read_counts"] is None or not np.array_equal(kw["read_counts"], C_arr)):
+            problems.append(Problem("orchestration:read_counts", "%s received read counts %s, the sampler was given %s" % (what, None if kw["read_counts"] is None else np.asarray(kw["read_counts"]).tolist(), C_arr.tolist())))
+        if "n_alleles" in kw and list(np.asarray(kw["n_alleles"])) != list(n_alleles):
+            problems.append(Problem("orchestration:n_alleles", "%s received allele counts %s for %s" % (what, list(np.asarray(kw["n_alleles"])), n_alleles)))
+
     def rec_mut(**kw):
+        params("mutation sweep", kw)
         log.append(("mutation", float(kw["temp"]), kw["genotype"].copy(), float(kw["llk"]), kw["genotype"]))
         return o_mut(**kw)
 
     def rec_struct(**kw):
+        params("structural move", kw)
         log.append(("structural%d" % kw["step_type"], float(kw["temp"]), kw["genotype"].copy(), float(kw["llk"]), kw["genotype"], np.array(kw["intervals"]).copy()))
         return o_struct(**kw)
 
     def rec_swap(**kw):
+        params("exchange move", kw)
         log.append(("swap", float(kw["temp_i"]), float(kw["temp_j"]), kw["genotype_i"].copy(), float(kw["llk_i"]), kw["genotype_j"].copy(), float(kw["llk_j"])))
         return o_swap(**kw)
 
